@@ -12,7 +12,19 @@ import (
 )
 
 // spawnInfo caches the worker summary per go-site callee.
-type c12SpawnCache map[*ssa.Function]*c12WorkerSum
+// The summary is per go statement, not per callee: a generic "call fn and
+// report its result" helper started from several go statements plays a
+// different role (inner manager / closer / runner) at each of them.
+// Nor per go statement alone: the go statement may sit in a launcher helper
+// called from several places, so the call path (frame) and the resolved body
+// are part of the key.
+type c12SpawnCache map[c12SpawnKey]*c12WorkerSum
+
+type c12SpawnKey struct {
+	g     *ssa.Go
+	fn    *ssa.Function
+	frame int
+}
 
 // workerOf resolves and explores the body of the go statement g in state st.
 func (x *c12) workerOf(st *xState, g *ssa.Go, cache c12SpawnCache, classify func(fn *ssa.Function) (c12WorkerKind, FieldID, bool)) *c12WorkerSum {
@@ -21,19 +33,20 @@ func (x *c12) workerOf(st *xState, g *ssa.Go, cache c12SpawnCache, classify func
 		x.undecide("%s starts a goroutine whose body is not statically known (%s)", FuncName(x.p, st.x.frames0().fn), x.pos(g))
 		return nil
 	}
-	if s, ok := cache[fn]; ok {
+	key := c12SpawnKey{g, fn, st.fr.id}
+	if s, ok := cache[key]; ok {
 		return s
 	}
 	kind, field, ok := classify(fn)
 	if !ok {
-		cache[fn] = nil
+		cache[key] = nil
 		return nil
 	}
 	bind := c12BindOf(g, fn)
 	snap := st.clone()
 	oracle := func(v ssa.Value) xVal { return evalSpawnerSide(snap, v, g) }
 	s := x.exploreWorker(fn, bind, kind, field, oracle)
-	cache[fn] = s
+	cache[key] = s
 	return s
 }
 
